@@ -18,7 +18,7 @@ def pin_shard(shard, nshards):
 
 
 def call_strategy(max_n=12, lazy_weight=2, late=True):
-    inputs = ["list", "range", "tuple", "iter", "keys"] + ["gen"] * (lazy_weight + 1)
+    inputs = ["list", "range", "tuple", "iter", "keys", "deque", "intseq"] + ["gen"] * (lazy_weight + 2)
     return st.fixed_dictionaries({
         "mode": st.sampled_from(["o", "o", "u"]),
         "n": st.one_of(st.integers(0, max_n), st.integers(0, 4)),
